@@ -133,11 +133,13 @@ CMasks(t, a, cfg) ==
              ELSE OK
 
 \* ImportedConfig = OriginalConfig, field by field, read off the layer objects of the converted graph
-CNasCfg(t, a, cfg) ==
+CNasCfg(t, a, cfg, asis) ==
     IF ~Claimed(t.method) THEN OK
     ELSE LET exp == IF t.method = "SN" THEN OrigSeq(a) ELSE NasSeq(a, cfg) IN
          IF CfgOnly(t.N) # CfgOnly(exp)
-         THEN V("C07.imported_config: layers of the converted model: " \o FirstDiff(CfgOnly(t.N), CfgOnly(exp)))
+         THEN IF KF_ReuseBN(a, cfg) /\ CfgOnly(t.N) = CfgOnly(Flat(a, ExportCfg(a, asis), ExportBias(a, asis), asis.bnode, NoChoice(a)))
+              THEN K("F51:different BatchNorms behind the call sites of one reused layer are all folded into the one layer object: " \o FirstDiff(CfgOnly(t.N), CfgOnly(exp)))
+              ELSE V("C07.imported_config: layers of the converted model: " \o FirstDiff(CfgOnly(t.N), CfgOnly(exp)))
          ELSE IF t.N # exp THEN D("converted graph: " \o FirstDiff(t.N, exp))
          ELSE OK
 
@@ -275,7 +277,7 @@ Check(t) ==
     IN  IF CHarness(t, a, asis) # OK THEN CHarness(t, a, asis)[2]       \* the scenario itself is not what the specification describes
         ELSE IF ~t.user_ok THEN CPlaced(t)[2]
         ELSE IF ~t.conv_ok THEN Pick(<<CPlaced(t), CConvert(t, a, cfg)>>)
-        ELSE Pick(<<CPlaced(t), CConvert(t, a, cfg), CMasks(t, a, cfg), CNasCfg(t, a, cfg), CWrapped(t, a, cfg, asis),
+        ELSE Pick(<<CPlaced(t), CConvert(t, a, cfg), CMasks(t, a, cfg), CNasCfg(t, a, cfg, asis), CWrapped(t, a, cfg, asis),
                     CUserParams(t, a, cfg, asis), CUserOut(t, a, cfg, asis), CUserAttrs(t, a), CMode(t), CHist(t, a, cfg),
                     CHistOut(t, a, cfg, asis), CExport(t, a, cfg, asis), CEndOut(t, a, cfg, asis), CPredict(t, a, cfg, asis)>>)
 
